@@ -434,6 +434,41 @@ def twin_import_variants(code: str):
     return out
 
 
+def comment_variants(code: str):
+    """An own-line comment above every statement (same indentation) — with or without a trailing comment on it."""
+    import ast
+    try:
+        tree = ast.parse(code)
+    except (SyntaxError, ValueError, RecursionError):
+        return []
+    lines = code.splitlines(keepends=True)
+    starts = sorted({n.lineno for n in ast.walk(tree) if isinstance(n, ast.stmt)}
+                    - {n.lineno for n in ast.walk(tree) if isinstance(n, ast.ImportFrom) and n.module == "__future__"})
+    out_lines = []
+    for i, l in enumerate(lines, 1):
+        if i in starts and l.strip():
+            indent = l[:len(l) - len(l.lstrip())]
+            out_lines.append(f"{indent}# about the next statement\n")
+        out_lines.append(l)
+    new = "".join(out_lines)
+    return [("comment_above", new)] if new != code and _same_ast(code, new) else []
+
+
+def composed_variants(code: str, rng, k=4):
+    """A structural wrapper with a layout / comment / context variant applied on top of it."""
+    base = [v for v in _variants_basic(code, True) if v[0].startswith("in_")]
+    if not base:
+        return []
+    out = []
+    for _ in range(k):
+        bname, btext = rng.choice(base)
+        over = comment_variants(btext) + layout_variants(btext) + expr_context_variants(btext, rng, limit=2) + nested_call_variants(btext, rng, limit=1)
+        if over:
+            oname, otext = rng.choice(over)
+            out.append((f"{oname}+{bname}", otext))
+    return out
+
+
 _variants_basic = variants
 
 
@@ -445,4 +480,6 @@ def variants(code: str, shift_ok: bool, rng=None):  # noqa: F811
         out.extend(second_use_variants(code))
         out.extend(nested_call_variants(code if code.endswith("\n") else code + "\n", rng))
         out.extend(twin_import_variants(code))
+        out.extend(comment_variants(code if code.endswith("\n") else code + "\n"))
+        out.extend(composed_variants(code if code.endswith("\n") else code + "\n", rng or __import__("random").Random(0)))
     return out
